@@ -38,10 +38,21 @@ func C16(p *core.Program, r *core.Report) {
 		}
 		r.Add("Q1", "FindOutlink: one admission point for candidates", p.Pos(fo.Pos()), len(appends) == 1, fmt.Sprintf("%d appends to the candidate list", len(appends)))
 		cutParse, m1 := core.CutAtoms(p, fo, regexp.MustCompile(q(`url.ParseRequestURI(`+href+`)#1 == nil`)), true)
-		cutPrefix, m2 := core.CutAtoms(p, fo, regexp.MustCompile(`^strings\.HasPrefix\(strings\.ToLower\(`+regexp.QuoteMeta(href)+`\),strings\.ToLower\(stringutil\.UnescapedString\(url\.Parse\(url\.URL\.String\(\$2\)\)#0\)\)\)$`), true)
+		// same site: the href starts with the page's scheme://host/ prefix, or the host of the
+		// parsed href equals the host of the page URL (case-insensitively; the scheme is tested
+		// separately)
+		hostEq := `(strings\.EqualFold|stringutil\.EqualsIgnoreCase)\(url\.(ParseRequestURI|Parse)\(` + regexp.QuoteMeta(href) + `\)#0\.Host,\$2\.Host\)`
+		cutPrefix, m2 := core.CutAtoms(p, fo, regexp.MustCompile(`^(strings\.HasPrefix\(strings\.ToLower\(`+regexp.QuoteMeta(href)+`\),strings\.ToLower\(stringutil\.UnescapedString\(url\.Parse\(url\.URL\.String\(\$2\)\)#0\)\)\)|`+hostEq+`)$`), true)
+		byHost := len(m2) == 1 && !strings.HasPrefix(m2[0], "strings.HasPrefix(")
+		// http(s) only: the prefix test alone admits whatever scheme the page URL has (ftp://,
+		// file://); the page-number finder tests the scheme of every link, so must this one
+		cutScheme, m3 := core.CutAtoms(p, fo, regexp.MustCompile(`^url\.(ParseRequestURI|Parse)\(`+regexp.QuoteMeta(href)+`\)#0\.Scheme == "https?"$`), true)
+		for _, ap := range appends {
+			r.Add("Q1", "candidate links have the scheme http or https", p.Pos(ap.Pos()), len(m3) == 2 && !core.InstrReachable(fo, cutScheme, ap), fmt.Sprintf("matching tests: %v", m3))
+		}
 		for _, ap := range appends {
 			r.Add("Q1", "candidate links parse as absolute request URIs", p.Pos(ap.Pos()), len(m1) == 1 && !core.InstrReachable(fo, cutParse, ap), fmt.Sprintf("matching tests: %v", m1))
-			r.Add("Q1", "candidate links start with the page's scheme://host/", p.Pos(ap.Pos()), len(m2) == 1 && !core.InstrReachable(fo, cutPrefix, ap), fmt.Sprintf("matching tests: %d", len(m2)))
+			r.Add("Q1", "candidate links are on the page's host (scheme://host/ prefix, or equal hosts)", p.Pos(ap.Pos()), len(m2) == 1 && !core.InstrReachable(fo, cutPrefix, ap), fmt.Sprintf("matching tests: %d", len(m2)))
 		}
 		// the allowed prefix is rendered after the path was reset to "/"
 		var unesc []ssa.CallInstruction
@@ -62,7 +73,7 @@ func C16(p *core.Program, r *core.Report) {
 			}, nil)
 			okPrefix = okPath
 		}
-		r.Add("Q1", "the allowed prefix is the page URL with its path reset to \"/\"", p.Pos(fo.Pos()), okPrefix, fmt.Sprintf("%d renderings of the page URL", len(unesc)))
+		r.Add("Q1", "the allowed prefix is the page URL with its path reset to \"/\"", p.Pos(fo.Pos()), okPrefix || byHost, fmt.Sprintf("%d renderings of the page URL (not needed when hosts are compared)", len(unesc)))
 		// stored link and returned value
 		linkField := ""
 		for _, a := range allocsOfAny(fo) {
